@@ -25,6 +25,7 @@ type Op struct {
 	Src     int       `json:"src,omitempty"`      // watcher index
 	L       *SimLayer `json:"l,omitempty"`        // report: the value
 	Block   bool      `json:"block,omitempty"`    // report: BlockingReportNewValue
+	SamePtr bool      `json:"same_ptr,omitempty"` // report: the SAME value object (pointer) as this source's previous report
 	Ctx     string    `json:"ctx,omitempty"`      // report: "" live | "pre" cancelled before the call
 	Hold    string    `json:"hold,omitempty"`     // report: park the monitor at "verify" | "stored" | "reply" while During runs
 	During  []Op      `json:"during,omitempty"`   // ops executed while the monitor is parked
@@ -195,6 +196,8 @@ type run struct {
 	evVal      int
 	contentTag string
 	errReports int
+	lastPtr    map[int]reflect.Value // per watcher: pointer to the value object it reported last
+	lastL      map[int]SimLayer
 	unregDone  map[int]bool
 	asyncs     map[int]*asyncRes // pending unregisters by handle
 }
